@@ -159,6 +159,7 @@ func runCase(l cl.Local, c frameCase, wait time.Duration) (err error, infra erro
 
 // feed sends frames then a probe through k's real loop and returns the oracle's verdict.
 func feed(l cl.Local, ch *cl.Child, k *cl.Canary, frames [][]byte, wait time.Duration) error {
+	t0 := time.Now()
 	serr := k.SendMany(frames)
 	pf, seen := probe(l)
 	if serr == nil {
@@ -167,6 +168,7 @@ func feed(l cl.Local, ch *cl.Child, k *cl.Canary, frames [][]byte, wait time.Dur
 	if serr == nil {
 		serr = ch.Ping()
 	}
+	delivery := time.Since(t0).Round(100 * time.Millisecond)
 	if k.Stalled() && !ch.Dead() {
 		// the harness could not even deliver the frames: the receive loop took nothing from
 		// its socket for 20 s while the history was written (and again for the probe). The
@@ -179,7 +181,7 @@ func feed(l cl.Local, ch *cl.Child, k *cl.Canary, frames [][]byte, wait time.Dur
 			return fmt.Errorf("the listener process died while processing the frames (probe event seen=%v): %s", ok, ch.Death())
 		}
 		if !ok {
-			return fmt.Errorf("the listener is alive but no longer processes frames: its receive loop stopped taking frames from the socket (nothing read for 20 s while the history was being delivered, the rest of it and the probe could not be delivered) and the event of a well-formed UDP probe sent after the frames did not arrive within a further %v", wait)
+			return fmt.Errorf("the listener is alive but no longer processes frames: its receive loop stopped taking frames from the socket (nothing read for 20 s while the history was being delivered, the rest of it and the probe could not be delivered) and the event of a well-formed UDP probe sent after the frames did not arrive within a further %v (delivery attempts took %v)", wait, delivery)
 		}
 		return nil
 	}
@@ -939,7 +941,6 @@ func TestSynFlood(t *testing.T) {
 			t.Fatalf("infra: %v", infra)
 		}
 		r.Note("flood of %d SYNs (%s) + probe took %.1fs", n, f.kind, time.Since(t0).Seconds())
-		t.Logf("flood of %d SYNs (%s) + probe took %.1fs: %v", n, f.kind, time.Since(t0).Seconds(), err)
 		if err != nil {
 			// reduce towards the smallest flood size that still fails (bisection between the
 			// largest passing size and this one) for as long as the budget allows - a failing
